@@ -6,7 +6,7 @@ from sim.core import FAILED
 from sim.steps import LineBudget, BudgetExceeded
 
 ID = "C18"
-CASES = {"quick": 800, "thorough": 14000}
+CASES = {"quick": 600, "thorough": 10000}
 RULE = ("seeded consistently typed feature-structure pairs (depth <=2, atomic / unspecified / nested values, shared "
         "variables) unified in both argument orders against a union-find reference; seeded FCFGs (<=3 variables, "
         "<=6 productions, agreement variables shared between head and body, epsilon productions, ambiguity, left "
@@ -76,14 +76,27 @@ VARS = ["S", "A", "B"]
 TERMS = ["a", "b"]
 
 
-def rand_feats(rng, vars_pool, feats):
-    """features of one grammar symbol occurrence: {feature: const | ['var', name]} (unspecified = absent)"""
+def rand_feats(rng, vars_pool, feats, asub=()):
+    """features of one grammar symbol occurrence: {feature: const | ['var', name] | {sub: const | ['var', name]}}
+    (unspecified = absent).  'A' is a nested agreement structure with the sub-features `asub`; a variable standing
+    for the whole structure is spelled ['var', <x|y>A]."""
     d = {}
     for f in feats:
         k = rng.random()
         if k < 0.35:
             continue
-        if k < 0.65:
+        if f == "A":
+            if k < 0.6:
+                d[f] = ["var", rng.pick(vars_pool) + "A"]
+            else:
+                sub = {}
+                for sf in asub:
+                    kk = rng.random()
+                    if kk < 0.3:
+                        continue
+                    sub[sf] = rng.pick(ATOMIC[sf]) if kk < 0.75 else ["var", rng.pick(vars_pool) + sf]
+                d[f] = sub
+        elif k < 0.65:
             d[f] = rng.pick(ATOMIC[f])
         else:
             d[f] = ["var", rng.pick(vars_pool) + f]
@@ -96,18 +109,19 @@ def gen_fcfg(rng):
     if nv >= 2 and rng.chance(0.12):
         vs = vs[:-1] + ["Gamma"]      # spelled like the Earley parser's own dummy start variable
     ts = TERMS[:rng.randint(1, 2)]
-    feats = rng.pick([[], ["N"], ["N"], ["N", "P"]])
+    feats = rng.pick([[], ["N"], ["N"], ["N", "P"], ["A"], ["A", "N"], ["A"]])
+    asub = rng.pick([["N"], ["N", "P"]]) if "A" in feats else []
     prods = []
     for _ in range(rng.randint(1, 6)):
         h = rng.pick(vs)
         ln = rng.weighted([(0, 1), (1, 4), (2, 4), (3, 1)])
         body = [rng.pick(vs) if rng.chance(0.5) else rng.pick(ts) for _ in range(ln)]
-        hf = rand_feats(rng, "xy", feats)
-        bf = [rand_feats(rng, "xy", feats) if b in vs else {} for b in body]
+        hf = rand_feats(rng, "xy", feats, asub)
+        bf = [rand_feats(rng, "xy", feats, asub) if b in vs else {} for b in body]
         p = {"head": h, "hf": hf, "body": body, "bf": bf}
         if p not in prods:
             prods.append(p)
-    if rng.chance(0.15) and len(ts) >= 1:
+    if rng.chance(0.15) and len(ts) >= 1 and "A" not in feats:
         # the same constituent both with and without a feature value (a general and a specific chart state for one
         # production and span), combined under an agreement variable
         vs = ["S", "A", "B"]
@@ -124,12 +138,16 @@ def gen_fcfg(rng):
     if rng.chance(0.5):
         # no epsilon productions in half of the cases (the Earley loop treats them specially)
         prods = [p for p in prods if p["body"]] or [{"head": "S", "hf": {}, "body": [ts[0]], "bf": [{}]}]
-    return {"vars": vs, "terms": ts, "feats": feats, "prods": prods, "start": "S",
+    return {"vars": vs, "terms": ts, "feats": feats, "asub": asub, "prods": prods, "start": "S",
             "via_text": rng.chance(0.5)}
 
 
 def _ftext(d):
-    return ",".join("%s=%s" % (f, ("?" + v[1]) if isinstance(v, (list, tuple)) else v) for f, v in sorted(d.items()))
+    def one(v):
+        if isinstance(v, dict):
+            return "[" + _ftext(v) + "]"
+        return ("?" + v[1]) if isinstance(v, (list, tuple)) else v
+    return ",".join("%s=%s" % (f, one(v)) for f, v in sorted(d.items()))
 
 
 def fcfg_text(g):
@@ -161,38 +179,62 @@ def build_fcfg(g):
 
 def instantiate(g):
     """the plain CFG obtained by instantiating every feature variable (and every unspecified feature)
-    with every value consistently: non-terminals are (variable, total assignment of the grammar's features)"""
+    with every value consistently: non-terminals are (variable, total assignment of the grammar's leaf paths).
+    The nested structure 'A' contributes the leaf paths A.<sub>; a variable standing for the whole structure ranges
+    over all total assignments of its sub-features."""
     feats = g["feats"]
-    doms = [ATOMIC[f] for f in feats]
-    totals = [dict(zip(feats, c)) for c in itertools.product(*doms)] if feats else [{}]
+    asub = g.get("asub") or []
+    paths = []
+    for f in feats:
+        paths += ["A." + sf for sf in asub] if f == "A" else [f]
+    doms = [ATOMIC[p[-1]] for p in paths]
+    totals = [dict(zip(paths, c)) for c in itertools.product(*doms)] if paths else [{}]
+    asub_totals = [dict(zip(asub, c)) for c in itertools.product(*[ATOMIC[x] for x in asub])] if asub else [{}]
 
     def nt(v, asg):
-        return ("V", v + "/" + ",".join("%s=%s" % (f, asg[f]) for f in feats))
+        return ("V", v + "/" + ",".join("%s=%s" % (p, asg[p]) for p in paths))
+
+    def var_names(d):
+        out = set()
+        for v in d.values():
+            if isinstance(v, dict):
+                out |= var_names(v)
+            elif isinstance(v, (list, tuple)):
+                out.add(v[1])
+        return out
     prods = []
     start = ("V", "#start")
     for asg in totals:
         prods.append((start, (nt(g["start"], asg),)))
     for p in g["prods"]:
-        vnames = sorted({v[1] for d in [p["hf"]] + p["bf"] for v in d.values() if isinstance(v, (list, tuple))})
-        vdoms = [ATOMIC[n[-1]] for n in vnames]
+        vnames = sorted(set().union(*[var_names(d) for d in [p["hf"]] + p["bf"]])) if ([p["hf"]] + p["bf"]) else []
+        vdoms = [asub_totals if n[-1] == "A" else ATOMIC[n[-1]] for n in vnames]
         for theta_vals in itertools.product(*vdoms):
             theta = dict(zip(vnames, theta_vals))
 
-            def options(d):
-                res = []
-                for asg in totals:
-                    ok = True
-                    for f in feats:
-                        v = d.get(f)
-                        if v is None:
-                            continue
+            def ok(asg, d):
+                for f in feats:
+                    v = d.get(f)
+                    if v is None:
+                        continue
+                    if f == "A":
+                        if isinstance(v, dict):
+                            for sf, sv in v.items():
+                                want = theta[sv[1]] if isinstance(sv, (list, tuple)) else sv
+                                if asg["A." + sf] != want:
+                                    return False
+                        else:
+                            for sf in asub:
+                                if asg["A." + sf] != theta[v[1]][sf]:
+                                    return False
+                    else:
                         want = theta[v[1]] if isinstance(v, (list, tuple)) else v
                         if asg[f] != want:
-                            ok = False
-                            break
-                    if ok:
-                        res.append(asg)
-                return res
+                            return False
+                return True
+
+            def options(d):
+                return [asg for asg in totals if ok(asg, d)]
             slots = []
             for x, f in zip(p["body"], p["bf"]):
                 if x in g["vars"]:
@@ -290,6 +332,10 @@ def run(case, out):
         out.probe("feature_free")
     if any(isinstance(v, (list, tuple)) for p in g["prods"] for d in [p["hf"]] + p["bf"] for v in d.values()):
         out.probe("agreement_variable")
+    if "A" in g["feats"]:
+        out.probe("nested_agreement_structure")
+        if any(isinstance(d.get("A"), (list, tuple)) for p in g["prods"] for d in [p["hf"]] + p["bf"]):
+            out.probe("variable_bound_to_a_whole_structure")
     f = out.call("FCFG.build", build_fcfg, g)
     if f is FAILED:
         return
